@@ -42,6 +42,7 @@ def showLpErr : LineParser.Err → String
   | .expectationParse l => s!"err expectation {l}"
   | .noShellExpression l => s!"err no-shell-expression {l}"
   | .exitCodeWithoutCommand l => s!"err exit-code-without-command {l}"
+  | .bodyWithoutCommand l => s!"err body-without-command {l}"
 
 def showErr : Markdown.Err → String
   | .crash => "crash"
